@@ -260,5 +260,5 @@ def cases(rng: random.Random, tier: str):
 
 def extra_coverage():
     return {"phase_of_observed_rejections": dict(_phase_stats),
-            "exhaustive": "thorough tier: every term of depth <= 2 over {int, None, N0, N1, Fwd0} (unions of 2 members "
+            "exhaustive_scope": "thorough tier: every term of depth <= 2 over {int, None, N0, N1, Fwd0} (unions of 2 members "
                           "(+None), tuples of <= 2, one-argument containers, str-keyed mappings), one spelling each"}
